@@ -26,11 +26,11 @@ type mutant struct {
 }
 
 type mutantResult struct {
-	ID       string   `json:"id"`
-	Expect   string   `json:"expect"`
-	Outcome  string   `json:"outcome"` // caught, verified, HOLE, OVER-SPECIFIED, error
-	Failing  []string `json:"failing_obligations,omitempty"`
-	Detail   string   `json:"detail,omitempty"`
+	ID      string   `json:"id"`
+	Expect  string   `json:"expect"`
+	Outcome string   `json:"outcome"` // caught, verified, HOLE, OVER-SPECIFIED, error
+	Failing []string `json:"failing_obligations,omitempty"`
+	Detail  string   `json:"detail,omitempty"`
 }
 
 func loadMutants(verif string) ([]mutant, error) {
